@@ -92,10 +92,11 @@ Definition edited : list event :=
     (8%Z, SetStatus 1 NotBonded);
     (8%Z, Prevote 1 1 (Hx 1 1 1) true);     (* unbonded *)
     (8%Z, Vote 2 2 1 1 0 false false);      (* unparsable, and no prevote *)
-    (8%Z, Malformed) ].
+    (8%Z, Malformed);
+    (8%Z, EditParams true 9%Z false) ].     (* merged params fail Params.Validate *)
 
 Example edited_outcomes_nonvacuous :
-  outcomes edited = [true; false; true; true; true; true; false; false; false].
+  outcomes edited = [true; false; true; true; true; true; false; false; false; false].
 Proof. vm_compute. reflexivity. Qed.
 
 (** the model's own trace of [flow] passes the checker evaluated on implementation traces *)
